@@ -491,11 +491,14 @@ static RunResult exec_fileset(const Plan &p)
 			s.k0 = s.kind == 0 ? Bytes() : resolve(o.arg(3), nullptr);
 			s.k1 = s.kind == 3 ? resolve(o.arg(4), nullptr) : Bytes();
 			const mtbl_source *src = mtbl_fileset_source(h.fs);
-			switch (s.kind) {
-			case 1: s.it = mtbl_source_get(src, (const uint8_t *)s.k0.data(), s.k0.size()); break;
-			case 2: s.it = mtbl_source_get_prefix(src, (const uint8_t *)s.k0.data(), s.k0.size()); break;
-			case 3: s.it = mtbl_source_get_range(src, (const uint8_t *)s.k0.data(), s.k0.size(), (const uint8_t *)s.k1.data(), s.k1.size()); break;
-			default: s.it = mtbl_source_iter(src);
+			{
+				TmpKey a(s.k0), b(s.k1);	// gone when the call returns
+				switch (s.kind) {
+				case 1: s.it = mtbl_source_get(src, a.p, a.n); break;
+				case 2: s.it = mtbl_source_get_prefix(src, a.p, a.n); break;
+				case 3: s.it = mtbl_source_get_range(src, a.p, a.n, b.p, b.n); break;
+				default: s.it = mtbl_source_iter(src);
+				}
 			}
 			s.open = true; s.cur = s.k0;
 			w.n_iters++;
@@ -518,7 +521,7 @@ static RunResult exec_fileset(const Plan &p)
 			if (o.name == "seek") {
 				Bytes k = resolve(o.arg(1), &s);
 				if (s.kind != 0 && mfmt::cmp(k, s.k0) < 0) continue;
-				(void)!mtbl_iter_seek(s.it, (const uint8_t *)k.data(), k.size());
+				{ TmpKey t(k); (void)!mtbl_iter_seek(s.it, t.p, t.n); }
 				for (auto &c : s.cur_by_ver) { c.pos = c.mp->lower_bound(k); c.failed = false; }
 				s.cur = k;
 				res.ev.u(50); res.ev.b(k);
